@@ -456,6 +456,42 @@ func flagBits(c cmds.Completed) string {
 		b(c.IsPipe()), b(cc.IsMGet()), b(c.IsOptIn()), b(cmds.IsStaticTTL(c))})
 }
 
+// methods that take a time.Duration / time.Time and must send it in the unit of their option
+var optionToken = map[string]string{"Ex": "EX", "Px": "PX", "Exat": "EXAT", "Pxat": "PXAT"}
+
+func argvLen(v reflect.Value) int { return v.FieldByName("cs").Elem().FieldByName("s").Len() }
+
+// expectWords: how a string / integer argument must appear in argv, formatted independently of strconv.Format*
+func expectWords(v reflect.Value) []string {
+	switch {
+	case v.Type() == tDuration || v.Type() == tTime:
+		return nil // judged by the !opt oracle line
+	case v.Kind() == reflect.String:
+		return []string{v.String()}
+	case v.Kind() == reflect.Int64:
+		return []string{fmt.Sprintf("%d", v.Int())}
+	case v.Kind() == reflect.Uint64:
+		return []string{fmt.Sprintf("%d", v.Uint())}
+	case v.Kind() == reflect.Slice:
+		var out []string
+		for i := 0; i < v.Len(); i++ {
+			out = append(out, expectWords(v.Index(i))...)
+		}
+		return out
+	}
+	return nil // floats: strconv.FormatFloat is trusted
+}
+
+func isSubsequence(need, have []string) bool {
+	i := 0
+	for _, h := range have {
+		if i < len(need) && need[i] == h {
+			i++
+		}
+	}
+	return i == len(need)
+}
+
 type built struct {
 	ok      bool
 	ty      string
@@ -464,7 +500,9 @@ type built struct {
 	cf      uint16
 	fl      string
 	cache   bool
-	blockOp bool // the path called a method named Block
+	blockOp bool        // the path called a method named Block
+	expect  []string    // words every argv must contain, in this order (string / integer arguments as passed)
+	opts    [][3]string // (option token, argument word, argv word that followed the token) of Ex/Px/Exat/Pxat calls
 	cmdName string
 	answer  string
 }
@@ -544,7 +582,19 @@ func execPath(g *bGraph, line string) (res built) {
 			res.blockOp = true
 		}
 		args := append([]reflect.Value{cur}, decodeArgs(m, w[i+1:j])...)
+		for _, av := range args[1:] {
+			res.expect = append(res.expect, expectWords(av)...)
+		}
+		before := argvLen(cur)
 		cur = m.Func.Call(args)[0]
+		if tok := optionToken[m.Name]; tok != "" && j == i+2 && (w[i+1][:2] == "d:" || w[i+1][:2] == "t:") {
+			sv := cur.FieldByName("cs").Elem().FieldByName("s")
+			if sv.Len() == before+2 && sv.Index(before).String() == tok {
+				res.opts = append(res.opts, [3]string{tok, w[i+1], sv.Index(before + 1).String()})
+			} else {
+				res.opts = append(res.opts, [3]string{tok, w[i+1], "<option token not appended>"})
+			}
+		}
 		i = j
 	}
 	panic("path op without final: " + line)
@@ -632,6 +682,19 @@ func (st *bState) emitPath(c *Ctx, line string, judge bool, edges []*bEdge) (bui
 	default:
 		c.Hit("other:" + strings.SplitN(res.answer, ":", 2)[0])
 	}
+	if res.ok {
+		// C33 oracle judged here: every string / integer argument, formatted independently, occurs in
+		// argv in call order (nothing dropped, reordered or reformatted)
+		if !isSubsequence(res.expect, res.argv) {
+			c.Fail("C33:arguments-not-in-call-order:"+strings.Fields(line)[2], line,
+				fmt.Sprintf("argv %q does not contain the caller's arguments %q in call order", res.argv, res.expect))
+		}
+		// C33 oracle lines: the word after EX/PX/EXAT/PXAT against the specification of the unit
+		for _, o := range res.opts {
+			c.Emit("!opt "+o[0]+" "+o[1]+" :: "+line, hx(o[2]), true)
+			c.Hit("opt:" + o[0])
+		}
+	}
 	if !judge || !res.ok {
 		return res.ok
 	}
@@ -647,7 +710,9 @@ func (st *bState) emitPath(c *Ctx, line string, judge bool, edges []*bEdge) (bui
 		}
 		return "0"
 	}
-	jl := fmt.Sprintf("judge %s %s %s %d", hx(name), b01(res.blockOp), b01(res.cache), res.cf)
+	// the judge line carries the path it was derived from (after "::"), so that a replay file
+	// holding only this line re-runs the real builders
+	jl := fmt.Sprintf("judge %s %s %s %d :: %s", hx(name), b01(res.blockOp), b01(res.cache), res.cf, line)
 	if knownNotRead[name] && res.fl[0] == '1' {
 		// known finding: a stable witness key on the path line (so that the replay file holds the
 		// path) + a model line on which the driver must reproduce the specification's verdict
@@ -780,7 +845,14 @@ func replayBuilders(judge bool) func(c *Ctx, lines []string) {
 			case strings.HasPrefix(l, "path "):
 				st.emitPath(c, l, judge, nil)
 			case strings.HasPrefix(l, "judge "), strings.HasPrefix(l, "!judge "):
-				// judge lines are derived from the preceding path line; re-derived by emitPath
+				// re-run the path the verdict was derived from; emitPath emits path + judge line again
+				if k := strings.Index(l, ":: "); k >= 0 {
+					st.emitPath(c, l[k+3:], true, nil)
+				}
+			case strings.HasPrefix(l, "!opt "):
+				if k := strings.Index(l, ":: "); k >= 0 {
+					st.emitPath(c, l[k+3:], false, nil)
+				}
 			default:
 				panic("unknown op line: " + l)
 			}
